@@ -27,13 +27,14 @@ func init() {
 	register(&Property{
 		ID:    "C16",
 		Level: "fault_enumeration",
-		Rule: "scripted raw-TCP backend whose bytes the harness knows, behind forward.New wrapped in NewStateListener and a status-recording writer under a real http.Server; response shapes: statuses 200-599, 0-10 headers, bodies 0..2MB, Content-Length or chunked with chunk patterns; fault kinds x positions: connection refused, close / RST at {accept, after the request was read, mid-head, after the head, mid-body at byte k, before the last chunk}, garbage head, stall beyond ResponseHeaderTimeout, stall in the middle of the response head detected by an idle deadline on the backend connection, client cancel before the head and mid-body, a request whose context is already cancelled when it reaches the listener; " +
+		Rule: "scripted raw-TCP backend whose bytes the harness knows, behind forward.New wrapped in NewStateListener and a status-recording writer under a real http.Server; response shapes: statuses 200-599, 0-10 headers, bodies 0..2MB, Content-Length or chunked with chunk patterns; fault kinds x positions: connection refused, close / RST at {accept, after the request was read, mid-head, after the head, mid-body at byte k, before the last chunk}, garbage head, stall beyond ResponseHeaderTimeout, stall in the middle of the response head detected by an idle deadline on the backend connection, client cancel before the head and mid-body; part oddrequests: CONNECT in authority form (IP literals, names), absolute-form targets and several Connection lines naming forwarding headers over raw TCP must each get a complete response head with paired listener events; a request whose context is already cancelled when it reaches the listener; " +
 			"further shapes: 103 Early Hints first, statuses 600-999, head-first streams (the backend waits until the client holds the head), a stall in the middle of the head detected by an idle deadline on the backend connection (504); a third of the fault-free/refused/closed cases run with the forwarder behind a never-tripping circuit breaker or a rebalanced round-robin; " +
 			"expected client view and status mapping computed from the script (502 when no response byte was received, 504 on header timeout, 499 recorded for a cancelled client, 500 or 502 for a damaged head, the head plus a prefix of the body and never extra bytes for a failure after the head); every 'connected' must be followed by exactly one 'disconnected'; a probe request must succeed after each fault; non-trivial = case with a fault or a body >= 64kB or chunked framing; distinct by (fault kind, position, response shape)",
 		Assumptions: []string{"hang watchdog of 60s per request (here a hang is a violation, by the statement)", "ResponseHeaderTimeout 150ms on a forwarder used only for the stall fault, idle read deadline 300ms on a forwarder used only for the stall-mid-head fault; every other case runs with generous timeouts"},
 		Parts: []Part{{Name: "relay", Shards: 12, Fn: c16Relay},
 			{Name: "concrelay", Race: true, Shards: 2, Fn: c16ConcRelay},
-			{Name: "manystreams", Shards: 1, Fn: c16ManyStreams}},
+			{Name: "manystreams", Shards: 1, Fn: c16ManyStreams},
+			{Name: "oddrequests", Shards: 2, Fn: c16OddRequests}},
 	})
 }
 
@@ -1045,4 +1046,99 @@ func c16ManyStreams(c *Ctx) {
 		c.Count("manystreams_nontrivial", 1)
 	})
 	c.Require("manystreams_nontrivial", 2)
+}
+
+// c16OddRequests: unusual but legal request shapes (CONNECT in authority form with IP literals, absolute-form targets,
+// several Connection lines some of which name only forwarding headers) sent over raw TCP through a state listener and the
+// forwarder under a real http.Server. Whatever the backend makes of them, the client must get a complete response head
+// ("never a hang or a crash of the proxy") and the listener's events must be paired.
+func c16OddRequests(c *Ctx) {
+	backend := newTestServer(http.HandlerFunc(func(w http.ResponseWriter, req *http.Request) {
+		w.Header().Set("X-Backend-Saw", req.Method)
+		w.WriteHeader(http.StatusMethodNotAllowed)
+		_, _ = w.Write([]byte("not here"))
+	}))
+	defer backend.Close()
+	backendAddr := strings.TrimPrefix(backend.URL, "http://")
+	var mu sync.Mutex
+	var events []int
+	fwd := forward.New(false)
+	sl := forward.NewStateListener(fwd, func(u *url.URL, state int) {
+		mu.Lock()
+		events = append(events, state)
+		mu.Unlock()
+	})
+	done := make(chan struct{}, 1)
+	proxy := newTestServer(http.HandlerFunc(func(w http.ResponseWriter, req *http.Request) {
+		defer func() {
+			select {
+			case done <- struct{}{}:
+			default:
+			}
+		}()
+		req.URL = &url.URL{Scheme: "http", Host: backendAddr, Path: req.URL.Path, RawQuery: req.URL.RawQuery}
+		sl.ServeHTTP(w, req)
+	}))
+	defer proxy.Close()
+	proxyAddr := strings.TrimPrefix(proxy.URL, "http://")
+	shapes := []struct{ name, raw string }{
+		{"connect-ipv4-authority", "CONNECT 10.1.2.3:443 HTTP/1.1\r\nHost: 10.1.2.3:443\r\n\r\n"},
+		{"connect-ipv6-authority", "CONNECT [::1]:443 HTTP/1.1\r\nHost: [::1]:443\r\n\r\n"},
+		{"connect-name-authority", "CONNECT example.com:443 HTTP/1.1\r\nHost: example.com:443\r\n\r\n"},
+		{"absolute-form", "GET http://other.test/abs/path?x=1 HTTP/1.1\r\nHost: other.test\r\n\r\n"},
+		{"connection-lines-forwarding-first", "GET /a HTTP/1.1\r\nHost: front.test\r\nConnection: X-Forwarded-Host\r\nConnection: keep-alive\r\n\r\n"},
+		{"connection-lines-three", "GET /b HTTP/1.1\r\nHost: front.test\r\nConnection: X-Forwarded-For, X-Real-Ip\r\nConnection: X-Custom\r\nX-Custom: 1\r\nConnection: close\r\n\r\n"},
+		{"connection-lines-lower-case", "GET /c HTTP/1.1\r\nHost: front.test\r\nconnection: x-forwarded-proto\r\nconnection: X-Forwarded-Host\r\nConnection: Keep-Alive\r\n\r\n"},
+		{"connection-line-forwarding-only", "GET /d HTTP/1.1\r\nHost: front.test\r\nConnection: X-Forwarded-Host, X-Forwarded-Port\r\n\r\n"},
+		{"plain", "GET /e?q=1 HTTP/1.1\r\nHost: front.test\r\n\r\n"},
+		{"options-path", "OPTIONS /f HTTP/1.1\r\nHost: front.test\r\n\r\n"},
+	}
+	c.Cases("shape", c.N(120, 2000), func(i int, r *rand.Rand) {
+		sh := shapes[i%len(shapes)]
+		mu.Lock()
+		events = nil
+		mu.Unlock()
+		select {
+		case <-done:
+		default:
+		}
+		conn, err := dialRetry("tcp", proxyAddr)
+		if err != nil {
+			c.Inconclusive("dial: " + err.Error())
+			return
+		}
+		defer conn.Close()
+		_ = conn.SetDeadline(time.Now().Add(60 * time.Second))
+		if _, err := conn.Write([]byte(sh.raw)); err != nil {
+			c.Inconclusive("write: " + err.Error())
+			return
+		}
+		resp, rerr := http.ReadResponse(bufio.NewReader(conn), nil)
+		c.Eval()
+		desc := map[string]any{"shape": sh.name, "request": sh.raw}
+		if rerr != nil {
+			key := "crash/no-response"
+			if ne, ok := rerr.(net.Error); ok && ne.Timeout() {
+				key = "hang"
+			}
+			c.Violation(key, sfmt("request shape %s: the client got no response head from the proxy (%v): the handler crashed or hung; request was %q", sh.name, rerr, sh.raw), desc)
+			return
+		}
+		_ = resp.Body.Close()
+		select {
+		case <-done:
+		case <-time.After(30 * time.Second):
+			c.Violation("hang", sfmt("request shape %s: the proxy handler did not return within 30s", sh.name), desc)
+			return
+		}
+		mu.Lock()
+		ev := append([]int(nil), events...)
+		mu.Unlock()
+		if len(ev) != 2 || ev[0] != forward.StateConnected || ev[1] != forward.StateDisconnected {
+			c.Violation("listener/unpaired", sfmt("request shape %s (answered %d): state listener saw events %v (0=connected,1=disconnected); want exactly [0 1]", sh.name, resp.StatusCode, ev), desc)
+			return
+		}
+		c.Count("odd_shape_"+sh.name, 1)
+		c.Nontrivial(sfmt("odd/%s/%d", sh.name, resp.StatusCode))
+	})
 }
